@@ -71,6 +71,9 @@ func analyseKernel(ctx *Ctx, fn *ssa.Function, nverts int, interp string) (*kern
 	mark := len(recOrder)
 	ev := newEval(ctx, interp, "Degenerate")
 	ev.symbolicElems = true
+	// the kernel's loops are read through their recurrences (bit i ⇔ value[i] < iso, vertex k of
+	// primitive i), not executed: unrolled they are 2^8 cases deep
+	ev.unroll = false
 	ev.evalRoot(fn)
 	if ev.Exceeded {
 		return nil, fmt.Errorf("evaluation budget exceeded")
